@@ -2,7 +2,7 @@ import MayVerif.Proof.Io.Inv
 namespace MayVerif.Io
 
 set_option maxHeartbeats 8000000 in
-theorem inv4_ustep (st st' : St) (c : Co) (pc : UPc) (e : Env) (h : Inv1 st) (h4 : Inv4 st)
+theorem inv4_ustep (st st' : St) (c : Co) (pc : UPc) (e : Env) (hc : Cfg st) (h : Inv1 st) (h4 : Inv4 st)
     (hpc : st.upc c = pc) (hs : ustep st c pc e = some st') : Inv4 st' := by
   prep4
   have hu1 := u1 c; have hk0n := k0 st.nk; have hr0 := r0 c
@@ -22,6 +22,6 @@ theorem inv4_ustep (st st' : St) (c : Co) (pc : UPc) (e : Env) (h : Inv1 st) (h4
 
 theorem inv4_estep (st st' : St) (e : Env) (h4 : Inv4 st) (hs : estep st e = some st') : Inv4 st' := by
   obtain ⟨r0, r1, r2, r3, r4, r5⟩ := h4
-  cases e <;> simp only [estep] at hs <;> first | contradiction | (simp only [Option.some.injEq] at hs; subst hs; constructor <;> assumption)
+  cases e <;> simp only [estep] at hs <;> (repeat' (split at hs)) <;> first | contradiction | (simp only [Option.some.injEq] at hs; subst hs; constructor <;> assumption)
 
 end MayVerif.Io
